@@ -194,4 +194,41 @@ theorem next_frame {fs tmp target pc r pc' fs'} (hn : next target tmp fs pc r = 
     | wrote k => simp [next] at hn
   | ret e => cases r <;> simp [next] at hn
 
+/-! ### several stores at once -/
+
+/-- what a store that has not returned knows about its own temporary file (the conjunct about the
+target in `PcOK` is instantiated with the target's *current* content, so it says nothing) -/
+def TaskOK (target : Path) (fs : FS) (t : CTask) : Prop :=
+  isRet t.pc = none → PcOK t.buf (fs target) fs t.tmp target t.pc
+
+/-- `TaskOK` only looks at the store's own temporary file -/
+theorem TaskOK.congr {target : Path} {fs fs' : FS} {t : CTask} (h : TaskOK target fs t)
+    (hf : fs' t.tmp = fs t.tmp) : TaskOK target fs' t := by
+  intro hr
+  have h' := h hr
+  obtain ⟨tmp, buf, pc⟩ := t
+  cases pc with
+  | openTmp b => exact ⟨h'.1, rfl⟩
+  | write b off => exact ⟨h'.1, rfl, h'.2.2.1, by rw [hf]; exact h'.2.2.2⟩
+  | close b w => exact ⟨h'.1, rfl, fun hw => by rw [hf]; exact h'.2.2 hw⟩
+  | rename b => exact ⟨h'.1, rfl, by rw [hf]; exact h'.2.2⟩
+  | ret e => simp [isRet] at hr
+
+/-- one answered system call of a store: it still knows its temporary file, and the target is
+untouched or holds the store's complete bytes -/
+theorem TaskOK.act {target : Path} {fs fs' : FS} {t : CTask} {r : Res} {pc' : Pc}
+    (hne : t.tmp ≠ target) (h : TaskOK target fs t)
+    (hn : next target t.tmp fs t.pc r = some (pc', fs')) :
+    TaskOK target fs' { t with pc := pc' } ∧ (fs' target = fs target ∨ fs' target = some t.buf) := by
+  have hr : isRet t.pc = none := by
+    cases hp : t.pc with
+    | ret e => rw [hp] at hn; cases r <;> simp [next] at hn
+    | _ => rfl
+  have hok := next_ok hne (h hr) hn
+  refine ⟨?_, hok.target⟩
+  intro hr'
+  have ht : fs' target = fs target := hok.target_running hr'
+  show PcOK t.buf (fs' target) fs' t.tmp target pc'
+  rw [ht]; exact hok
+
 end CJ.AtomicStore
